@@ -19,16 +19,36 @@ RULE = ("case = dictionary of the client + history of 1..6 transfers on one clie
         "transfer = (address, payload, route): download(force_segment) | open('wb'/'w', size declared or "
         "not, buffering in {0,2..16,1024,8192}, split of the payload into write() calls) | upload via "
         "upload()/open('rb'/'r')/SdoVariable.data with read(), read(k) loops, readline, and the server "
-        "answering in one of the 4 CiA 301 upload styles. Every length 0..64 is enumerated for every "
-        "route; Hypothesis adds random histories with boundary lengths (7k+-1, 889+-1, 1023..1025) and a "
-        "log-uniform tail. Oracle: strict CiA 301 reference server validates every request frame and "
-        "holds the bytes. Non-trivial = at least one segment frame or a length in {0,1,4,5,7,8}; "
+        "answering in one of the 4 CiA 301 upload styles, optionally with fewer than 7 bytes per segment "
+        "and/or with the last-segment flag in a segment of its own that carries no data (n=7, c=1). "
+        "Addresses: declared exactly (VAR, record member, array member, array member through the template "
+        "of member 1), index absent from the dictionary, and index present but sub-index not declared "
+        "(record + undeclared sub, VAR object + sub > 0). Every length 0..64 is enumerated for every "
+        "route, for every address class, for the empty-last-segment style, for string-typed entries "
+        "(VISIBLE/UNICODE/OCTET_STRING as VAR, record member, array element) with all-zero / zero-tailed / "
+        "zero-embedded payloads through upload(), .data (both directions), download(), .open; every "
+        "fixed-size type (VAR, record member, array element) x lengths 0..12 (thorough: 0..64); fixed "
+        "10-transfer histories over neighbouring sub-indices of one index in both orders. Hypothesis adds "
+        "random histories with boundary lengths (7k+-1, 889+-1, 1023..1025) and a log-uniform tail, one "
+        "stream with the original classes and one (salt 1) with the added address/style/content classes. "
+        "Oracle: strict CiA 301 reference server validates every request frame, holds the bytes and must "
+        "be idle again when the call returns; a download commits exactly the payload once; an upload "
+        "returns exactly the held bytes - for an entry declared as BOOLEAN/number: the declared number of "
+        "leading bytes through upload()/.data, either that or all bytes through open() (the statement "
+        "does not say where the cut happens); for (VAR index, sub > 0): all bytes or the VAR's declared "
+        "number of leading bytes (both readings of 'declared' accepted); never an exception. "
+        "Non-trivial = at least one segment frame or a length in {0,1,4,5,7,8}; "
         "distinct = canonical JSON of the case.")
 ASSUMPTIONS = [
     "raw (buffering=0) streams move at most one segment per call, as documented; the harness honours "
     "the returned count",
-    "text mode uses ASCII without carriage returns (TextIOWrapper translates them)",
+    "text mode uses ASCII without carriage returns (TextIOWrapper translates them); NUL is a character",
     "client dictionary entries are numeric, BOOLEAN, string/DOMAIN or absent (types without codec are out of domain)",
+    "a segment with n=7 and c=1 after the announced number of bytes is a legal CiA 301 upload response "
+    "(the field n may be 7; the size indication counts data bytes, not segments)",
+    "every read through the file-like interface goes on until the stream reports end of data (b''/''), "
+    "so a conformant client has fetched the segment that carries c=1 when the call sequence ends",
+    "arrays in the client dictionary declare sub 0 and member 1; records declare sub 0",
 ]
 BUDGET = {"quick": 150, "thorough": 400}
 
@@ -45,11 +65,33 @@ def _payload(n, salt=0):
     return bytes(((i * 37 + salt * 11 + 1) % 255) + 1 for i in range(n))
 
 
+class Server(RefSdoServer):
+    """RefSdoServer plus one more upload response style that CiA 301 allows: all data bytes go out
+    in segments with c=0 and the last-segment flag travels in a segment of its own that carries no
+    data (n=7, c=1).  (The parent does that only for an empty value.)  The request validation stays
+    the parent's: its response is rewritten and its transfer state restored."""
+    ul_empty_last = False
+
+    def _seg_upload(self, d):
+        if not (self.ul_empty_last and self.state == self.UL_SEG):
+            return super()._seg_upload(d)
+        mux, data, toggle = self.mux, self.data, self.toggle
+        resp = super()._seg_upload(d)
+        if self.state == self.IDLE and len(resp) == 1:
+            cmd = resp[0][0]
+            if cmd >> 5 == 0 and cmd & 1 and (cmd >> 1) & 7 != 7:
+                # a segment with data that the parent flagged as last: hold the flag back
+                resp = [bytes([cmd & 0xFE]) + resp[0][1:]]
+                self.state = self.UL_SEG
+                self.mux, self.data, self.pos, self.toggle = mux, data, len(data), toggle ^ 1
+        return resp
+
+
 class Rig:
     def __init__(self, od_spec):
         import canopen
         self.hub = Hub()
-        self.server = RefSdoServer(0x600 + NODE, 0x580 + NODE)
+        self.server = Server(0x600 + NODE, 0x580 + NODE)
         self.server.attach(self.hub)
         self.net, self.port = self.hub.attach("client")
         od = build_od(od_spec)
@@ -146,7 +188,25 @@ def _buffered_write(fp, data, chunks):
         fp.write(data[pos:])
 
 
-def do_upload(rig, x, D, tag, decl):
+def acceptable(data, route, decl, loose):
+    """What the property lets an upload of `data` return.  decl = data type the client dictionary
+    declares for exactly this (index, sub) (None = not declared); loose = data type of a VAR object
+    at this index when sub != 0 (the dictionary declares only sub 0 of it)."""
+    if decl is not None and decl in FIXED:
+        cut = data[:rc.width(decl) // 8]
+        if route in ("upload", "var_data"):
+            return [cut]
+        # through the file-like interface the statement does not say whether the stream already
+        # delivers the declared number of leading bytes or all bytes: both are accepted
+        return [data, cut]
+    if decl is None and loose is not None and loose in FIXED:
+        # (index of a VAR object, sub != 0): 'declared' only if the sub-index is taken as not
+        # applicable to a VAR (which is what get_variable documents); both readings are accepted
+        return [data, data[:rc.width(loose) // 8]]
+    return [data]
+
+
+def do_upload(rig, x, D, tag, decl, loose=None):
     c = rig.client
     data = bytes(x["data"])
     index, sub = x["index"], x["sub"]
@@ -154,11 +214,10 @@ def do_upload(rig, x, D, tag, decl):
     style = x["style"]
     rig.server.upload_style = lambda i, s, d: style
     rig.server.ul_chunks = x.get("ul_chunks")       # a server that fills its segments with fewer than 7 bytes
+    rig.server.ul_empty_last = bool(x.get("empty_last"))   # ... and sends c=1 in a segment without data
     route = x["route"]
-    want = data
+    wants = acceptable(data, route, decl, loose)
     if route in ("upload", "var_data"):
-        if decl is not None and decl in FIXED:
-            want = data[:rc.width(decl) // 8]
         if route == "upload":
             got = c.upload(index, sub)
         else:
@@ -167,7 +226,7 @@ def do_upload(rig, x, D, tag, decl):
     else:
         buffering = x["buffering"]
         if x.get("text"):
-            want = data.decode("ascii")
+            wants = [w.decode("ascii") for w in wants]
             with c.open(index, sub, "r", buffering=buffering) as fp:
                 if x.get("lines"):
                     got = "".join(list(fp))
@@ -191,10 +250,11 @@ def do_upload(rig, x, D, tag, decl):
                 got = _read_loop(fp, x.get("reads"), b"", D, tag)
     if isinstance(got, (bytes, bytearray)):
         got = bytes(got)
-    if got != want:
+    if got not in wants:
         D.append(Discrepancy(f"C01/upload/{route}/bytes",
-                             f"{tag}: got {_show(got)} want {_show(want)} (style {style}, "
-                             f"declared type {decl})"))
+                             f"{tag}: got {_show(got)} want {' or '.join(_show(w) for w in wants)} "
+                             f"(style {style}{', empty last segment' if x.get('empty_last') else ''}, "
+                             f"declared type {decl}{'' if loose is None else f', VAR at this index {loose}'})"))
 
 
 def _show(v):
@@ -239,9 +299,11 @@ def _read_loop(fp, reads, empty, D, tag):
 def run_case(case) -> Outcome:
     rig = Rig(case["od"])
     decl = {}
+    vardt = {}
     for o in case["od"]:
         if o["kind"] == "var":
             decl[(o["index"], 0)] = o["dt"]
+            vardt[o["index"]] = o["dt"]
         else:
             for m in o["members"]:
                 decl[(o["index"], m["sub"])] = m["dt"]
@@ -261,7 +323,8 @@ def run_case(case) -> Outcome:
             if x["op"] == "dl":
                 do_download(rig, x, D, tag)
             else:
-                do_upload(rig, x, D, tag, decl.get((x["index"], x["sub"])))
+                do_upload(rig, x, D, tag, decl.get((x["index"], x["sub"])),
+                          vardt.get(x["index"]) if x["sub"] else None)
         except Exception as e:
             D.append(Discrepancy(f"C01/{x['op']}/{x['route']}/raises",
                                  f"{tag}: {type(e).__name__}: {e}"))
@@ -282,11 +345,24 @@ def run_case(case) -> Outcome:
         klass.append(f"{x['op']}/{x['route']}/{_lenclass(ln)}"
                      + ("/b%s" % _bufclass(x["buffering"]) if "buffering" in x else "")
                      + ("/" + x["style"] if x["op"] == "ul" else "")
+                     + ("/emptylast" if x.get("empty_last") else "")
+                     + _addrclass(case["od"], x["index"], x["sub"])
                      + ("/sized" if x.get("size_decl") else ""))
         if D:
             break
     kl = klass[0] if len(klass) == 1 else f"history{len(case['xfers'])}"
     return Outcome(nontrivial, kl, D)
+
+
+def _addrclass(od, index, sub):
+    for o in od:
+        if o["index"] == index:
+            if o["kind"] == "var":
+                return "" if sub == 0 else "/var-sub>0"
+            if any(m["sub"] == sub for m in o["members"]):
+                return ""
+            return "/array-template" if o["kind"] == "array" and sub else "/undeclared-sub"
+    return ""
 
 
 def _lenclass(n):
@@ -332,7 +408,38 @@ def ascii_payload(n, salt=0):
     return bytes(alphabet[(i * 7 + salt * 3 + (i // 11)) % len(alphabet)] for i in range(n))
 
 
-def enum_cases():
+def _zpayload(n, kind, salt=0):
+    """Payloads in which zero bytes matter (a value is not a C string): kind 0 = all zero,
+    1 = non-zero bytes followed by 1..n zero bytes, 2 = zero bytes first and embedded, last byte
+    non-zero, 3 = embedded zero run and one zero byte at the end."""
+    if kind == 0:
+        return bytes(n)
+    body = _payload(n, salt)
+    if kind == 1:
+        z = 1 + salt % n if n else 0
+        return body[:n - z] + bytes(z)
+    if kind == 2:
+        return bytes(0 if (i % 3 == 0 and i != n - 1) else body[i] for i in range(n))
+    return bytes(0 if (i == n - 1 or n // 3 <= i < n // 3 + 2) else body[i] for i in range(n))
+
+
+STRING_ENTRIES = [(0x2004, 0, True), (0x2007, 0, True), (0x2008, 0, True), (0x2005, 2, False),
+                  (0x2005, 3, False), (0x2005, 4, False), (0x2009, 1, False), (0x2009, 0x42, False)]
+
+
+def typed_od():
+    """Every fixed-size type as a VAR object, as a record member and as the element type of an array."""
+    od = [{"kind": "var", "index": 0x2100 + k, "name": f"v{k}", "dt": dt} for k, dt in enumerate(FIXED)]
+    od.append({"kind": "record", "index": 0x2200, "name": "rec", "members":
+               [{"sub": 0, "name": "n", "dt": rc.UNSIGNED8}] +
+               [{"sub": k + 1, "name": f"m{k}", "dt": dt} for k, dt in enumerate(FIXED)]})
+    od += [{"kind": "array", "index": 0x2300 + k, "name": f"a{k}", "members": [
+        {"sub": 0, "name": "n", "dt": rc.UNSIGNED8}, {"sub": 1, "name": "el", "dt": dt}]}
+        for k, dt in enumerate(FIXED)]
+    return od
+
+
+def enum_cases(full=False):
     od = [{"kind": "var", "index": 0x2000, "name": "dom", "dt": rc.DOMAIN},
           {"kind": "var", "index": 0x2001, "name": "u16", "dt": rc.UNSIGNED16},
           {"kind": "var", "index": 0x2002, "name": "i24", "dt": rc.INTEGER24},
@@ -341,10 +448,19 @@ def enum_cases():
           {"kind": "record", "index": 0x2005, "name": "rec", "members": [
               {"sub": 0, "name": "n", "dt": rc.UNSIGNED8},
               {"sub": 1, "name": "a", "dt": rc.UNSIGNED32},
-              {"sub": 2, "name": "b", "dt": rc.OCTET_STRING}]},
+              {"sub": 2, "name": "b", "dt": rc.OCTET_STRING},
+              {"sub": 3, "name": "c", "dt": rc.VISIBLE_STRING},
+              {"sub": 4, "name": "d", "dt": rc.UNICODE_STRING}]},
           {"kind": "array", "index": 0x2006, "name": "arr", "members": [
               {"sub": 0, "name": "n", "dt": rc.UNSIGNED8},
-              {"sub": 1, "name": "el", "dt": rc.UNSIGNED16}]}]
+              {"sub": 1, "name": "el", "dt": rc.UNSIGNED16}]},
+          {"kind": "var", "index": 0x2007, "name": "ustr", "dt": rc.UNICODE_STRING},
+          {"kind": "var", "index": 0x2008, "name": "ostr", "dt": rc.OCTET_STRING},
+          {"kind": "array", "index": 0x2009, "name": "sarr", "members": [
+              {"sub": 0, "name": "n", "dt": rc.UNSIGNED8},
+              {"sub": 1, "name": "el", "dt": rc.VISIBLE_STRING}]}]
+    tod = typed_od()
+    rot = 0
     for n in range(0, 65):
         data = _payload(n, n)
         chunkings = [[n] if n else [], [1] * n, [3] * (n // 3), [7] * (n // 7), [8] * (n // 8),
@@ -409,6 +525,124 @@ def enum_cases():
                                             "buffering": buffering, "lines": (n % 2 == 0),
                                             "reads": [5] if n % 3 == 0 else None}]}
 
+        # --- addresses whose index is in the client dictionary although the sub-index is not declared there:
+        # (record, undeclared sub), (VAR object, sub > 0), and sub 0 of an array.  Every route that takes a
+        # plain (index, sub).  The server holds / accepts a value at each of them.
+        near = [(0x2005, 5 + n), (0x2005, 255), (0x2001, 1 + n), (0x2003, 255 - n), (0x2004, 1 + 2 * n),
+                (0x2000, 7), (0x2006, 0), (0x2009, 0)]
+        for style in styles_for(n):
+            for idx, sub in near:
+                yield {"od": od, "xfers": [{"op": "ul", "index": idx, "sub": sub, "data": data,
+                                            "style": style, "route": "upload"}]}
+        for k, (idx, sub) in enumerate(near):
+            rot += 1
+            yield {"od": od, "xfers": [{"op": "ul", "index": idx, "sub": sub, "data": data,
+                                        "style": styles_for(n)[rot % len(styles_for(n))], "route": "open",
+                                        "buffering": BUFFERINGS[rot % len(BUFFERINGS)],
+                                        "reads": [None, [7], [3, None], [-4, 9]][rot % 4]}]}
+            yield {"od": od, "xfers": [{"op": "dl", "index": idx, "sub": sub, "data": data,
+                                        "route": "download", "force": bool(rot % 2)}]}
+            yield {"od": od, "xfers": [{"op": "dl", "index": idx, "sub": sub, "data": data, "route": "open",
+                                        "size_decl": bool(rot % 3), "buffering": BUFFERINGS[(rot // 2) % len(BUFFERINGS)],
+                                        "force": rot % 5 == 0, "chunks": chunkings[rot % len(chunkings)]}]}
+
+        # --- the server sends the last-segment flag in a segment of its own without data (n=7, c=1)
+        if n >= 1:
+            for style in ("seg_size", "seg_nosize"):
+                base = {"op": "ul", "data": data, "style": style, "empty_last": True}
+                yield {"od": od, "xfers": [dict(base, index=0x2000, sub=0, route="upload")]}
+                yield {"od": od, "xfers": [dict(base, index=0x3000 + n, sub=n, route="upload")]}
+                yield {"od": od, "xfers": [dict(base, index=0x2002, sub=0, route="var_data", toplevel=True)]}
+                yield {"od": od, "xfers": [dict(base, index=0x2005, sub=2, route="var_data", toplevel=False)]}
+                for chunks in ([1], [3, 7], [4, 1, 1, 7]) if n > 1 else ():
+                    rot += 1
+                    yield {"od": od, "xfers": [dict(base, index=0x2000, sub=0, ul_chunks=chunks,
+                                                    **({"route": "upload"} if rot % 2 else
+                                                       {"route": "open", "buffering": BUFFERINGS[rot % len(BUFFERINGS)],
+                                                        "reads": None}))]}
+                all_reads = [None, [1], [3], [7], [8], [64], [2, 5, 11], [1, None], [4, 2, None], [-3, None],
+                             [-1, 2, -5], [-2, -9, None]]
+                for buffering in (BUFFERINGS if full else (0, 3, 7, 8, 16, 1024)):
+                    rot += 1
+                    yield {"od": od, "xfers": [dict(base, index=0x2000, sub=0, route="open", buffering=buffering,
+                                                    reads=all_reads[rot % 12])]}
+                yield {"od": od, "xfers": [dict(base, index=0x2000, sub=0, route="open", var_open=True,
+                                                toplevel=True, buffering=(0, 5, 1024)[n % 3], reads=None)]}
+                yield {"od": od, "xfers": [dict(base, index=0x2004, sub=0, data=text, route="open", text=True,
+                                                buffering=(1, 4, 1024)[n % 3], lines=(n % 2 == 1), reads=None)]}
+                # ... and the same client carries on with the next transfer
+                yield {"od": od, "xfers": [dict(base, index=0x2000, sub=0, route="upload"),
+                                           {"op": "dl", "index": 0x2100, "sub": 0, "data": data, "route": "download",
+                                            "force": False},
+                                           dict(base, index=0x2001, sub=0, route="upload")]}
+
+        # --- string-typed entries (VAR, record member, array element) through upload() / .data with payloads
+        # in which zero bytes matter: the bytes are the value, whatever the declared type
+        zp = []
+        for kind in range(4):
+            z = _zpayload(n, kind, n)
+            if z not in zp:
+                zp.append(z)
+        sty = styles_for(n)
+        for idx, sub, top in STRING_ENTRIES:
+            for z in zp:
+                rot += 1
+                for style in (sty if full else [sty[rot % len(sty)]]):
+                    yield {"od": od, "xfers": [{"op": "ul", "index": idx, "sub": sub, "data": z,
+                                                "style": style, "route": "upload"}]}
+                for style in (sty if full else [sty[(rot + 1) % len(sty)]]):
+                    yield {"od": od, "xfers": [{"op": "ul", "index": idx, "sub": sub, "data": z, "style": style,
+                                                "route": "var_data", "toplevel": top}]}
+                yield {"od": od, "xfers": [{"op": "dl", "index": idx, "sub": sub, "data": z,
+                                            "route": "var_data", "toplevel": top}]}
+            rot += 1
+            z = zp[rot % len(zp)]
+            yield {"od": od, "xfers": [{"op": "dl", "index": idx, "sub": sub, "data": z, "route": "download",
+                                        "force": bool(rot % 2)}]}
+            yield {"od": od, "xfers": [{"op": "dl", "index": idx, "sub": sub, "data": z, "route": "open",
+                                        "var_open": True, "toplevel": top, "size_decl": bool(rot % 3),
+                                        "buffering": BUFFERINGS[rot % len(BUFFERINGS)],
+                                        "chunks": chunkings[rot % len(chunkings)]}]}
+            yield {"od": od, "xfers": [{"op": "ul", "index": idx, "sub": sub, "data": z,
+                                        "style": sty[rot % len(sty)], "route": "open", "var_open": True,
+                                        "toplevel": top, "buffering": BUFFERINGS[rot % len(BUFFERINGS)],
+                                        "reads": [None, [7], [2, None]][rot % 3]}]}
+
+        # --- one client, several objects one after the other: neighbours under one index that are declared
+        # with different types / not declared (whatever the client remembers of one transfer must not
+        # leak into the next), both orders, uploads and downloads interleaved
+        seq = [(0x2005, 1), (0x2005, 0), (0x2005, 2), (0x2005, 9), (0x2001, 0), (0x2001, 3), (0x2006, 0),
+               (0x2006, 5), (0x2005, 3), (0x2005, 1)]
+        for order in (seq, seq[::-1]):
+            rot += 1
+            xf = []
+            for k, (idx, sub) in enumerate(order):
+                if (k + rot) % 4 == 3:
+                    xf.append({"op": "dl", "index": idx, "sub": sub, "data": _payload(n, n + k),
+                               "route": "download", "force": bool(k % 2)})
+                else:
+                    xf.append({"op": "ul", "index": idx, "sub": sub, "data": _payload(n, n + k),
+                               "style": sty[(k + rot) % len(sty)], "route": "upload",
+                               **({"empty_last": True} if n and (k + rot) % 3 == 0 and
+                                  sty[(k + rot) % len(sty)].startswith("seg") else {})})
+            yield {"od": od, "xfers": xf}
+
+        # --- every fixed-size type x every length around its width: the declared number of leading bytes
+        if n <= 12 or full:
+            for k, dt in enumerate(FIXED):
+                rot += 1
+                for style in (sty if (full or n <= 9) else [sty[rot % len(sty)]]):
+                    yield {"od": tod, "xfers": [{"op": "ul", "index": 0x2100 + k, "sub": 0, "data": data,
+                                                 "style": style, "route": "upload"}]}
+                    yield {"od": tod, "xfers": [{"op": "ul", "index": 0x2200, "sub": k + 1, "data": data,
+                                                 "style": style, "route": "var_data", "toplevel": False}]}
+                yield {"od": tod, "xfers": [{"op": "ul", "index": 0x2300 + k, "sub": 1 + (rot * 7) % 255, "data": data,
+                                             "style": sty[rot % len(sty)],
+                                             "route": ("upload", "var_data")[rot % 2], "toplevel": False}]}
+                yield {"od": tod, "xfers": [{"op": "dl", "index": (0x2100 + k, 0x2200)[rot % 2],
+                                             "sub": (0, k + 1)[rot % 2], "data": data, "route": "var_data",
+                                             "toplevel": not rot % 2}]}
+
 
 def lengths(max_len):
     boundary = sorted({7 * k + d for k in range(1, 20) for d in (-1, 0, 1)} |
@@ -429,7 +663,11 @@ def chunking(n):
 
 
 @st.composite
-def history(draw, max_len):
+def history(draw, max_len, wide=False):
+    """wide=False draws exactly what this strategy drew before the address / response-style / content
+    classes below were added (same draw sequence, so the same examples for a given seed); wide=True adds:
+    addresses whose index is in the dictionary but whose sub-index is not declared, the 'empty last
+    segment' server style, payloads in which zero bytes matter (also NUL in text)."""
     nvars = draw(st.integers(0, 5))
     od = []
     used = set()
@@ -461,21 +699,32 @@ def history(draw, max_len):
             if o["kind"] == "array":
                 for sub in sorted(draw(st.sets(st.integers(2, 255), max_size=2))):
                     ent.append((o["index"], sub, o["members"][1]["dt"], False))
+    # objects of which the dictionary declares only some sub-indices: VAR (sub 0 only) and records
+    partial = [o for o in od if o["kind"] in ("var", "record")]
     xfers = []
     for _ in range(draw(st.integers(1, 6))):
         in_od = bool(ent) and draw(st.booleans())
+        near = wide and not in_od and bool(partial) and draw(st.booleans())
         if in_od:
             index, sub, dt, top = draw(st.sampled_from(ent))
+        elif near:
+            o = draw(st.sampled_from(partial))
+            index, dt, top = o["index"], None, False
+            taken = {0} if o["kind"] == "var" else {m["sub"] for m in o["members"]}
+            sub = draw(st.integers(0, 255).filter(lambda v: v not in taken))
         else:
             index = draw(st.integers(0, 0xFFFF).filter(lambda v: v not in used))
             sub, dt, top = draw(st.integers(0, 255)), None, False
         n = draw(lengths(max_len))
         text = draw(st.integers(0, 5)) == 0
         if text and n <= 1500:
-            data = draw(st.text(st.characters(min_codepoint=1, max_codepoint=127, exclude_characters="\r"),
+            data = draw(st.text(st.characters(min_codepoint=0 if wide else 1, max_codepoint=127,
+                                              exclude_characters="\r"),
                                 min_size=n, max_size=n)).encode("ascii")
         elif text:
             data = ascii_payload(n, draw(st.integers(0, 255)))
+        elif wide and n and draw(st.integers(0, 2)) == 0:
+            data = _zpayload(n, draw(st.integers(0, 3)), draw(st.integers(0, 255)))
         elif n <= 1500 and draw(st.integers(0, 3)) == 0:
             data = draw(st.binary(min_size=n, max_size=n))
         else:
@@ -508,6 +757,8 @@ def history(draw, max_len):
                  "style": draw(st.sampled_from(styles_for(n)))}
             if n > 1 and draw(st.integers(0, 3)) == 0:
                 x["ul_chunks"] = draw(st.lists(st.integers(1, 7), min_size=1, max_size=4))
+            if wide and n and x["style"].startswith("seg") and draw(st.integers(0, 2)) == 0:
+                x["empty_last"] = True
             r = draw(st.sampled_from(["upload", "open", "open", "var_data"] if in_od else
                                      ["upload", "open", "open"]))
             x["route"] = r
@@ -533,5 +784,13 @@ def history(draw, max_len):
 
 def search(ctx):
     thorough = ctx.tier == "thorough"
-    ctx.enumerate(enum_cases(), "every payload length 0..64 x every route/style/buffering class")
-    ctx.hypothesis(history(10000 if thorough else 2000), 15000 if thorough else 1500)
+    ctx.enumerate(enum_cases(full=thorough),
+                  "every payload length 0..64 x every route/style/buffering class; x addresses with an "
+                  "undeclared sub-index under a declared index; x 'empty last segment' server style; x string "
+                  "entries with zero-byte payloads; every fixed-size type x lengths around its width")
+    # two streams of random histories (original classes: even salts; with the added address / server-style /
+    # content classes: odd salts), alternating so that the cooperative budget cuts both alike
+    max_len = 10000 if thorough else 2000
+    for part in range(5 if thorough else 1):
+        ctx.hypothesis(history(max_len), 3000 if thorough else 1500, salt=2 * part)
+        ctx.hypothesis(history(max_len, wide=True), 3000 if thorough else 1500, salt=2 * part + 1)
